@@ -619,6 +619,63 @@ func init() {
 		return &TupleVal{vals: []Value{ex.newBig(st, r), &IfaceVal{}}}
 	}
 
+	// ------------------------------------------------------------------ math/rand, time
+	// A *math/rand.Rand made with rand.New is an object with hidden mutable state that is not safe for
+	// concurrent use: every method call is a write to it (the write monitor sees it when the object hangs
+	// off a package-level variable).  Its output is an engine-only draw (not replayable, not data).
+	intrinsics["time.Now"] = func(ex *Exec, st *State, fr *Frame, c *ssa.Call, a []Value) Value {
+		return &StructVal{fields: []Value{c64(0), c64(0), &Ptr{}}}
+	}
+	intrinsics["(time.Time).UnixNano"] = func(ex *Exec, st *State, fr *Frame, c *ssa.Call, a []Value) Value { return c64(0) }
+	intrinsics["(time.Time).Unix"] = intrinsics["(time.Time).UnixNano"]
+	intrinsics["math/rand.NewSource"] = func(ex *Exec, st *State, fr *Frame, c *ssa.Call, a []Value) Value {
+		return &IfaceVal{typ: ex.opaqueT, val: ex.token("math/rand.Source")}
+	}
+	intrinsics["math/rand.New"] = func(ex *Exec, st *State, fr *Frame, c *ssa.Call, a []Value) Value {
+		o := st.newObject(objCell, nil)
+		o.val = &StructVal{}
+		o.ext = &mathRandExt{}
+		site, _ := ex.repoSite(st)
+		o.site = "math/rand generator created at " + site
+		return &Ptr{obj: o.id}
+	}
+	mrand := func(width int) intrinsicFn {
+		return func(ex *Exec, st *State, fr *Frame, c *ssa.Call, a []Value) Value {
+			p := a[0].(*Ptr)
+			if p.obj == 0 {
+				ex.recordViolation(st, "panic:nil", nil, "nil *rand.Rand")
+				ex.endPath("violation:panic:nil")
+			}
+			ex.checkWrite(st, st.wobj(p.obj))
+			if width == 0 { // Read(p []byte) (int, error)
+				buf := a[1].(*SliceVal)
+				n := ex.concretize(st, buf.len, "math/rand read length", 4096)
+				for i, t := range ex.drawBytes(st, "mrand", n) {
+					ex.setByte(st, buf.obj, mkBin(OpAdd, buf.off, c64(i)), t)
+				}
+				return &TupleVal{vals: []Value{c64(n), &IfaceVal{}}}
+			}
+			v := freshVar("mrand", BV(width))
+			if width == 64 {
+				st.addPC(mkCmp(OpSle, c64(0), v))
+			}
+			return v
+		}
+	}
+	intrinsics["(*math/rand.Rand).Read"] = mrand(0)
+	intrinsics["(*math/rand.Rand).Int63"] = mrand(64)
+	intrinsics["(*math/rand.Rand).Int"] = mrand(64)
+	intrinsics["(*math/rand.Rand).Uint32"] = mrand(32)
+	intrinsics["(*math/rand.Rand).Intn"] = func(ex *Exec, st *State, fr *Frame, c *ssa.Call, a []Value) Value {
+		p := a[0].(*Ptr)
+		ex.checkWrite(st, st.wobj(p.obj))
+		n := a[1].(*Term)
+		ex.oblige(st, mkCmp(OpSlt, c64(0), n), "panic:intn", "invalid argument to Intn")
+		v := freshVar("mrand", BV(64))
+		st.addPC(mkAnd(mkCmp(OpSle, c64(0), v), mkCmp(OpSlt, v, n)))
+		return v
+	}
+
 	// ------------------------------------------------------------------ readers
 	intrinsics["bytes.NewReader"] = func(ex *Exec, st *State, fr *Frame, c *ssa.Call, a []Value) Value {
 		o := st.newObject(objCell, nil)
@@ -1014,6 +1071,10 @@ func (r *readerExt) cloneExt() Ext { n := *r; return &n }
 type bufExt struct{ cells []*Term }
 
 func (b *bufExt) cloneExt() Ext { return &bufExt{cells: append([]*Term(nil), b.cells...)} }
+
+type mathRandExt struct{}
+
+func (m *mathRandExt) cloneExt() Ext { return m }
 
 type mutexExt struct{ held map[string]bool }
 
